@@ -379,3 +379,6 @@ add("mg_free_dfcc", ["C18"], ["tu/merger_free_dfcc.c"], "h_merger_free_dfcc", mo
     replace=["mtbl_iter_destroy/mtbl_iter_destroy__cap", "free/free__cap", "heap_destroy/heap_destroy__cap", "entry_vec_destroy/entry_vec_destroy__cap", "iter_vec_destroy/iter_vec_destroy__cap", "ubuf_destroy/ubuf_destroy__cap"],
     loops="loops/mg_free.json", unwind=16, timeout=600, slice=1, strength="U", functions=["merger_iter_free"],
     assumptions=["destructors and free replaced by capture contracts; up to 2^28 sources", "that the ownership list holds every iterator obtained: groups mg_*_dfcc"])
+add("rd_iterinit_dfcc", ["C03", "C02"], ["tu/reader_dfcc.c"], "h_reader_init_iter_dfcc", mode="dfcc", enforce="reader_iter_init/reader_iter_init__spec",
+    replace=RD_DFCC_REPL + ["my_calloc/my_calloc__cap", "free/free__cap"], unwind=12, timeout=600, strength="U", functions=["reader_iter_init", "get_block_at_index"],
+    assumptions=["mtbl/block.c functions and get_block replaced by contracts (as in rd_next_dfcc / rd_seek_dfcc); base case of the block-identity invariant: the constructor used by get / get_prefix / get_range establishes it"])
